@@ -123,6 +123,59 @@ fn declaration_faults() -> Vec<Item> {
     out
 }
 
+/// Array types are equal only if they stem from the same type expression (name equivalence):
+/// structurally equal named and anonymous array types used where another one is expected.
+fn type_equivalence_faults() -> Vec<Item> {
+    let mut out = vec![];
+    let anon = || arr(2, tname("int"));
+    let stmts: Vec<RStmt> = vec![
+        RStmt::Call("q".into(), vec![eint(1), evar("i"), evar("c")]),
+        RStmt::Call("q".into(), vec![eint(1), evar("i"), evar("d")]),
+        RStmt::Call("q".into(), vec![eint(1), evar("i"), evar("a")]),
+        RStmt::Call("q".into(), vec![eint(1), evar("i"), evar("b")]),
+        RStmt::Call("r".into(), vec![evar("c")]),
+        RStmt::Call("r".into(), vec![evar("d")]),
+        RStmt::Call("s".into(), vec![evar("d")]),
+        RStmt::Call("s".into(), vec![evar("x")]),
+        RStmt::Call("s".into(), vec![evar("a")]),
+        RStmt::Call("t".into(), vec![evar("c")]),
+        RStmt::Call("t".into(), vec![evar("a")]),
+        RStmt::Call("r".into(), vec![RExpr::Var(idx(vname("m"), eint(0)))]),
+        RStmt::Call("t".into(), vec![RExpr::Var(idx(vname("m"), eint(0)))]),
+        RStmt::Assign(vname("c"), evar("a")),
+        RStmt::Assign(vname("a"), evar("c")),
+        RStmt::Assign(vname("d"), evar("e")),
+        RStmt::Assign(vname("a"), evar("b")),
+        RStmt::Assign(vname("a"), evar("d")),
+        RStmt::If(bin(Op::Equ, evar("c"), evar("a")), Arc::new(RStmt::Empty), None),
+        RStmt::If(bin(Op::Equ, evar("d"), evar("e")), Arc::new(RStmt::Empty), None),
+        RStmt::While(bin(Op::Lst, evar("a"), evar("d")), Arc::new(RStmt::Empty)),
+        RStmt::Assign(vname("i"), bin(Op::Add, evar("c"), evar("a"))),
+    ];
+    for (k, st) in stmts.into_iter().enumerate() {
+        let mut decls = prelude_types();
+        decls.push(RDecl::Type { name: "C".into(), ty: anon() });
+        decls.push(RDecl::Type { name: "B".into(), ty: tname("A") });
+        decls.push(proc_q());
+        decls.push(proc_r());
+        decls.push(RDecl::Proc { name: "s".into(), params: vec![RParam { is_ref: true, name: "x".into(), ty: anon() }], vars: vec![], body: vec![] });
+        decls.push(RDecl::Proc { name: "t".into(), params: vec![RParam { is_ref: true, name: "x".into(), ty: tname("C") }], vars: vec![], body: vec![] });
+        let mut vars = main_locals();
+        for (n, t) in [("b", tname("B")), ("c", tname("C")), ("d", anon()), ("e", anon()), ("x", anon())] {
+            vars.push(RVarDecl { name: n.into(), ty: t });
+        }
+        let main = RDecl::Proc { name: "main".into(), params: vec![], vars, body: vec![st] };
+        if k % 2 == 0 {
+            decls.push(main);
+        } else {
+            decls.insert(4, main);
+        }
+        let f = decls.iter().position(|d| matches!(d, RDecl::Proc { name, .. } if name == "main")).unwrap_or(0);
+        out.push(Item { family: "type-equivalence", program: RProgram { decls }, focus_decl: f });
+    }
+    out
+}
+
 fn statement_faults(tier: Tier) -> Vec<Item> {
     let mut out = vec![];
     let mut en = Enumerator::new(fault_pools());
@@ -207,7 +260,21 @@ pub fn eval_doc(doc: &Doc, via_lsp: bool) -> (Vec<Failure>, &'static str, Option
         class = "single-fault";
         let want = sem_errs[0];
         rule = Some(want.rule);
-        let (s, e) = byte_span(doc, want.first, want.end);
+        // rules that blame one identifier are reported on that identifier token alone; the
+        // other constructs may cover the comments in front of them (node ranges own them)
+        let on_identifier = matches!(
+            want.rule,
+            Rule::RedeclarationAsType
+                | Rule::RedeclarationAsProcedure
+                | Rule::RedeclarationAsParameter
+                | Rule::RedeclarationAsVariable
+                | Rule::MustBeAReferenceParameter
+                | Rule::NotAType
+                | Rule::UndefinedType
+                | Rule::NotAVariable
+                | Rule::UndefinedVariable
+        ) && want.end == want.first + 1;
+        let (s, e) = if on_identifier { (doc.r.tok_ranges[want.first].0, doc.r.tok_ranges[want.first].1) } else { byte_span(doc, want.first, want.end) };
         let same: Vec<_> = errs.iter().filter(|x| rule_of(&x.1) == Some(want.rule)).collect();
         let other: Vec<_> = errs.iter().filter(|x| rule_of(&x.1) != Some(want.rule)).collect();
         if same.is_empty() {
@@ -266,6 +333,7 @@ pub fn run(tier: Tier) -> Report {
     items.extend(progs::syntactic_family(tier).into_iter().filter(|i| i.family != "G1-whole-programs" && !progs::is_well_typed(&i.program)));
     items.extend(statement_faults(tier));
     items.extend(declaration_faults());
+    items.extend(type_equivalence_faults());
     let evals = AtomicU64::new(0);
     let stats = std::sync::Mutex::new(Stats::default());
     let fails: Vec<Failure> = items
@@ -274,7 +342,7 @@ pub fn run(tier: Tier) -> Report {
         .flat_map_iter(|(i, it)| {
             let pr = print_program(&it.program);
             let vars = doc_variants(&pr, 6);
-            let nvar = if it.family == "declaration-faults" || it.family == "scenario-permutations" { 7 } else { 2 };
+            let nvar = if it.family == "declaration-faults" || it.family == "type-equivalence" || it.family == "scenario-permutations" { 7 } else { 2 };
             let mut out = vec![];
             for k in 0..nvar {
                 let (layout, gaps) = vars[(i + k) % vars.len()].clone();
